@@ -67,6 +67,21 @@ impl Monitor for C11 {
         let closed: Vec<&Farm> = pre.farms.iter().filter(|f| post.farm(&f.identifier).map(|g| g != *f).unwrap_or(true)).collect();
         let created: Vec<&Farm> = post.farms.iter().filter(|g| pre.farm(&g.identifier).map(|f| f != *g).unwrap_or(true)).collect();
         if !out.ok() {
+            let who = match action {
+                FarmAction::Create { .. } => "creator",
+                FarmAction::Expand { params } => match params.farm_identifier.as_ref().and_then(|i| pre.farm(i)) {
+                    Some(f) if f.owner.as_str() == sender => "owner",
+                    Some(_) => "other",
+                    None => "nofarm",
+                },
+                FarmAction::Close { farm_identifier } => match pre.farm(farm_identifier) {
+                    Some(f) if f.owner.as_str() == sender => "owner",
+                    Some(_) if contract_owner.as_deref() == Some(sender.as_str()) => "contract_owner",
+                    Some(_) => "other",
+                    None => "nofarm",
+                },
+            };
+            c.stats.sig(&[step.op.kind(), "rej", who, &funds.len().to_string(), if cfg.create_farm_fee.amount.is_zero() { "fee0" } else { "fee+" }]);
             return Ok(());
         }
         // expected money movement
@@ -239,11 +254,24 @@ impl Monitor for C11 {
                 return Err(v);
             }
         }
+        let phase = |f: &Farm| -> &'static str {
+            match (epoch, farm_expired(&c.w, f, now)) {
+                (_, Some(true)) => "expired",
+                (Some(e), _) if e < f.start_epoch => "future",
+                (Some(e), _) if e >= f.preliminary_end_epoch => "ended",
+                _ => "active",
+            }
+        };
+        let ph: Vec<&str> = closed.iter().map(|f| phase(f)).collect();
         c.stats.sig(&[
             step.op.kind(),
-            &closed.len().to_string(),
+            "ok",
+            &ph.join("+"),
             &cfg.max_concurrent_farms.to_string(),
             if cfg.create_farm_fee.amount.is_zero() { "fee0" } else { "fee+" },
+            if cfg.create_farm_fee.denom == match action { FarmAction::Create { params } | FarmAction::Expand { params } => params.farm_asset.denom.clone(), _ => String::new() } { "samedenom" } else { "otherdenom" },
+            &funds.len().to_string(),
+            if frozen_hit { "frozen" } else { "-" },
         ]);
         Ok(())
     }
